@@ -2,7 +2,7 @@
    A request is a list of segments of reads; a schedule is ANY list of request indices (each entry lets
    that request run its next stage: ServeHTTP entry with ResetSuperglobals, then one segment per stage);
    an answer is the number of the request whose data the read returned. *)
-From V.C11 Require Import Spec Model Proofs.
+From V.C11 Require Import Spec Model Proofs FineModel FineProofs.
 
 (* "Locals, parameters, query/post/cookie/server data read through the request object ... always belong
    to the request being served": for every set of requests and EVERY schedule, every read through a local,
@@ -42,3 +42,20 @@ Theorem superglobals_isolated_refuted : exists progs sched i,
   ~ own_data (rid i) (answers_of (run (init progs) sched) i).
 Proof. exact superglobals_refuted_l. Qed.
 Print Assumptions superglobals_isolated_refuted.
+
+(* ===== finer than gates: the lazy fill of $_GET itself is interruptible (FineModel.v: a scheduling
+   point between the allocation of the cache object and its fill, where the verif yield hook sits).
+   The exclusive-window guarantee survives: from ANY state, a request that has not started and then runs
+   any number of stages with nobody stepping in between does not crash and reads only its own data *)
+Theorem fine_exclusive_window_safe_partial : forall s i q k,
+  nth_error (freqs s) i = Some q -> fstarted q = false -> fcrashed q = false ->
+  exists q' vs, nth_error (freqs (frun s (repeat i (S k)))) i = Some q' /\ fcrashed q' = false /\
+                fgot q' = (fgot q ++ vs)%list /\ own (frid i) vs.
+Proof. exact fine_window_safe_l. Qed.
+Print Assumptions fine_exclusive_window_safe_partial.
+(* "no request crashes" is REFUTED for overlapping requests: A parks inside the fill, B's ServeHTTP resets
+   the caches, A resumes and dereferences nil (deterministic witness of load:panic:superglobal-cache) *)
+Theorem fine_no_crash_refuted : exists progs sched i q,
+  nth_error (freqs (frun (finit progs) sched)) i = Some q /\ fcrashed q = true.
+Proof. exact fine_crash_witness_l. Qed.
+Print Assumptions fine_no_crash_refuted.
